@@ -24,7 +24,15 @@ def gen_grid(case):
     irregular spacing, grid far from / across the origin, unsorted input order, PSF data of any magnitude
     and memory layout."""
     rng = case.rng
-    ngx, ngy = int(rng.integers(1, 7)), int(rng.integers(1, 7))
+    r = rng.random()
+    if r < 0.3:                                    # strongly non-square, more columns than rows
+        ngy = int(rng.integers(1, 5))
+        ngx = int(rng.integers(ngy + 2, 8))
+    elif r < 0.6:                                  # ... and the reverse
+        ngx = int(rng.integers(1, 5))
+        ngy = int(rng.integers(ngx + 2, 8))
+    else:                                          # independent 1..6
+        ngx, ngy = int(rng.integers(1, 7)), int(rng.integers(1, 7))
     if ngx == 1 and ngy == 1:
         ngx = 2
     case.note('axis:grid:' + ('single_row_or_col' if min(ngx, ngy) == 1 else
@@ -65,9 +73,9 @@ def gen_grid(case):
 
 
 def run(case):
-    """Three independent short histories (own grids) per case: they are cheap (~10 ms each)."""
+    """Four independent histories (own grids) per case: they are cheap (~20 ms each)."""
     params, digests, nevals = [], [], 0
-    for _ in range(3):
+    for _ in range(4):
         p, d, n = _history(case)
         params.append(p)
         digests.append(d)
@@ -76,7 +84,7 @@ def run(case):
     case.digest = core.digest(digests)
     case.nontrivial = nevals >= 2
     case.note('gridded_evals', nevals)
-    case.note('gridded_histories', 3)
+    case.note('gridded_histories', 4)
 
 
 def _history(case):
@@ -129,6 +137,28 @@ def _history(case):
     nsteps = int(rng.integers(15, 45))
     log = []
     nevals = 0
+    if rng.random() < 0.6:
+        # cell sweep: every cell of the grid once, in random order, alternating between the original and
+        # a copy made up front (they share the caches): any cache whose key confuses two cells must show
+        if rng.random() < 0.5:
+            pool.append((pool[0][0].copy(), dict(state0), 'copy'))
+        cells = [(i, j) for i in range(max(len(xg) - 1, 1)) for j in range(max(len(yg) - 1, 1))]
+        for ci in rng.permutation(len(cells)):
+            i, j = cells[int(ci)]
+            x0 = float(rng.uniform(xg[i], xg[i + 1])) if len(xg) > 1 else float(xg[0])
+            y0 = float(rng.uniform(yg[j], yg[j + 1])) if len(yg) > 1 else float(yg[0])
+            live, st, origin = pool[int(rng.integers(0, len(pool)))]
+            live.x_0, live.y_0 = x0, y0
+            st.update(x_0=x0, y_0=y0)
+            used.append((x0, y0))
+            xs = x0 + rng.uniform(-2, 2, 6)
+            ys = y0 + rng.uniform(-2, 2, 6)
+            fr = fresh(st)
+            O.compare(case, O.request(lambda: live(xs, ys)), O.request(lambda: fr(xs, ys)), 'gridded_eval_vs_fresh',
+                      {'family': 'gridded', 'object': origin, 'pool': len(pool), 'attr': 'cell_sweep'})
+            nevals += 1
+        log.append(['cell_sweep', len(cells)])
+        case.note('gridded_cell_sweeps')
     for _ in range(nsteps):
         k = int(rng.integers(0, len(pool)))
         live, st, origin = pool[k]
